@@ -428,6 +428,9 @@ func mainHistory(seed uint64, rng *Rng, blocks int) *Pilot {
 			p.AcceptedEdit()
 		}
 		// parameters at a meaningful zero / off (genesis export must carry them as they are)
+		if b == 7 || p.R.Chance(1, 12) {
+			p.SetRegistryWithDuplicates()
+		}
 		if b == 11 {
 			p.MarginParamsZeros(int(seed))
 		} else if p.R.Chance(1, 7) {
